@@ -17,6 +17,7 @@ import (
 	"encoding/json"
 	"fmt"
 	"os"
+	"runtime/debug"
 	"sort"
 	"sync"
 	"time"
@@ -26,126 +27,81 @@ import (
 
 func main() { lib.Main("C33", run) }
 
-type opRun struct {
-	init   string
-	consts string // quick
-	constT string // thorough
-}
-
-func cfg(init, consts string) []byte {
-	return []byte("CONSTANTS " + consts + "\nINIT " + init + "\nNEXT Next\nINVARIANT InputsOK\nINVARIANT LawOK\nINVARIANT Emit\n")
-}
-
-// Scopes of the exhaustive one-step enumeration. Alphabets (Alpha): 1 {a,wide,combining}
-// 2 {a,newline,wide} 3 {a,e-acute} 4 {a,wide} 5 {a,wide,combining,newline} 6 {a,e-acute,wide}.
-var opRuns = []opRun{
-	{"InitT", "MaxSegs = 1 MaxChars = 2 MaxW = 0 NStyles = 2 Alpha = 5 MaxIx = 0 MaxScript = 0",
-		"MaxSegs = 1 MaxChars = 3 MaxW = 0 NStyles = 2 Alpha = 5 MaxIx = 0 MaxScript = 0"},
-	{"InitConcat", "MaxSegs = 2 MaxChars = 1 MaxW = 0 NStyles = 3 Alpha = 4 MaxIx = 0 MaxScript = 0",
-		"MaxSegs = 2 MaxChars = 2 MaxW = 0 NStyles = 3 Alpha = 4 MaxIx = 0 MaxScript = 0"},
-	{"InitConcat3", "MaxSegs = 1 MaxChars = 1 MaxW = 0 NStyles = 3 Alpha = 4 MaxIx = 0 MaxScript = 0",
-		"MaxSegs = 2 MaxChars = 1 MaxW = 0 NStyles = 3 Alpha = 4 MaxIx = 0 MaxScript = 0"},
-	{"InitPartition", "MaxSegs = 2 MaxChars = 2 MaxW = 0 NStyles = 2 Alpha = 3 MaxIx = 2 MaxScript = 0",
-		"MaxSegs = 3 MaxChars = 2 MaxW = 0 NStyles = 2 Alpha = 3 MaxIx = 2 MaxScript = 0"},
-	{"InitSplit", "MaxSegs = 2 MaxChars = 2 MaxW = 0 NStyles = 3 Alpha = 2 MaxIx = 0 MaxScript = 0",
-		"MaxSegs = 3 MaxChars = 2 MaxW = 0 NStyles = 3 Alpha = 2 MaxIx = 0 MaxScript = 0"},
-	{"InitTrim", "MaxSegs = 2 MaxChars = 2 MaxW = 5 NStyles = 3 Alpha = 1 MaxIx = 0 MaxScript = 0",
-		"MaxSegs = 3 MaxChars = 2 MaxW = 7 NStyles = 3 Alpha = 1 MaxIx = 0 MaxScript = 0"},
-	{"InitStyle", "MaxSegs = 2 MaxChars = 2 MaxW = 0 NStyles = 3 Alpha = 4 MaxIx = 0 MaxScript = 0",
-		"MaxSegs = 3 MaxChars = 1 MaxW = 0 NStyles = 4 Alpha = 4 MaxIx = 0 MaxScript = 0"},
-	{"InitStyleSeg", "MaxSegs = 1 MaxChars = 2 MaxW = 0 NStyles = 4 Alpha = 4 MaxIx = 0 MaxScript = 0",
-		"MaxSegs = 1 MaxChars = 2 MaxW = 0 NStyles = 4 Alpha = 5 MaxIx = 0 MaxScript = 0"},
-	{"InitTB", "MaxSegs = 2 MaxChars = 1 MaxW = 0 NStyles = 2 Alpha = 4 MaxIx = 0 MaxScript = 2",
-		"MaxSegs = 2 MaxChars = 1 MaxW = 0 NStyles = 2 Alpha = 4 MaxIx = 0 MaxScript = 3"},
-}
-
 func run(c *lib.Ctx) error {
 	if c.Replay != "" {
 		return replay(c)
 	}
 	c.Set("rule", "a case is one call (operation, projected arguments); distinct by its canonical JSON; non-trivial = every case except those the specification leaves Unspecified (each has a prescribed result set)")
-	if err := oneStep(c); err != nil {
-		return err
+	// the four parts are independent; they run side by side (each starts its own TLC processes)
+	parts := []func(*lib.Ctx) error{oneStep, behaviours, random, styledown}
+	errs := make([]error, len(parts))
+	var wg sync.WaitGroup
+	for i := range parts {
+		wg.Add(1)
+		go func(i int) {
+			defer wg.Done()
+			defer func() {
+				if p := recover(); p != nil {
+					errs[i] = lib.Infra("panic in check driver: %v\n%s", p, debug.Stack())
+				}
+			}()
+			errs[i] = parts[i](c)
+		}(i)
 	}
-	if err := behaviours(c); err != nil {
-		return err
-	}
-	if err := random(c); err != nil {
-		return err
-	}
-	if err := styledown(c); err != nil {
-		return err
+	wg.Wait()
+	for _, err := range errs {
+		if err != nil {
+			return err
+		}
 	}
 	c.Assume("TLC is trusted; display width and UTF-8 length of a char are data taken from wcwidth.OfRune / utf8 (checked when a model char is concretised); Normal(t) is the doc comment of ui.Text; the executor compares projected results with the result sets TLC prescribes and never computes an expected result itself")
 	c.Assume("Unspecified: Partition at an index that is not a char boundary / out of range / decreasing; TrimWcwidth(w<0); the number of pieces (0 or 1) of SplitByRune on the empty text; Styledown for zero-width characters (Render rejects them)")
 	return nil
 }
 
-// oneStep: M + G over the exhaustive one-step scopes, one TLC process per operation.
+// oneStep: M + G over the exhaustive one-step scopes (ScopeOf in MCStyledCases.tla).
 func oneStep(c *lib.Ctx) error {
 	dir := c.SpecDir("StyledText")
-	type out struct {
-		ems   []Emitted
-		err   error
-		count int64
+	cfg := fmt.Sprintf("CONSTANT Tier = %d\nINIT InitAll\nNEXT Next\nINVARIANT InputsOK\nINVARIANT LawOK\nINVARIANT Emit\n", c.Pick(1, 2))
+	r, err := c.TLC("MCStyledCases", lib.TLCRun{Dir: dir, Module: "MCStyledCases", Workers: 4, Timeout: 14 * time.Minute, HeapGB: 8,
+		Files: map[string][]byte{"MCStyledCases.cfg": []byte(cfg)}})
+	if err != nil {
+		return err
 	}
-	outs := make([]out, len(opRuns))
-	lib.Parallel(len(opRuns), 5, func(i int) {
-		o := opRuns[i]
-		consts := o.consts
-		if c.Thorough() {
-			consts = o.constT
-		}
-		r, err := c.TLC("MCStyledCases/"+o.init, lib.TLCRun{Dir: dir, Module: "MCStyledCases", Workers: 2, Timeout: 12 * time.Minute, HeapGB: 6,
-			Files: map[string][]byte{"MCStyledCases.cfg": cfg(o.init, consts)}})
-		if err != nil {
-			outs[i].err = err
-			return
-		}
-		if r.ErrKind != "" {
-			outs[i].err = lib.Infra("%s: a law of StyledText fails in the model itself (%s %s)\n%s", o.init, r.ErrKind, r.ErrName, r.ErrTrace)
-			return
-		}
-		seen := map[string]bool{}
-		for _, s := range r.PrintedStrings() {
-			if seen[s] {
-				continue
-			}
-			seen[s] = true
-			var em Emitted
-			if err := json.Unmarshal([]byte(s), &em); err != nil {
-				outs[i].err = lib.Infra("bad case from TLC: %v: %s", err, s)
-				return
-			}
-			outs[i].ems = append(outs[i].ems, em)
-		}
-		if int64(len(outs[i].ems)) != r.Distinct {
-			outs[i].err = lib.Infra("%s: TLC reported %d cases, received %d", o.init, r.Distinct, len(outs[i].ems))
-		}
-	})
+	if r.ErrKind != "" {
+		return lib.Infra("a law of StyledText fails in the model itself (%s %s)\n%s", r.ErrKind, r.ErrName, r.ErrTrace)
+	}
+	seen := map[string]bool{}
 	scopes := map[string]int{}
-	unspec := 0
-	for i, o := range outs {
-		if o.err != nil {
-			return o.err
+	unspec, n := 0, 0
+	for _, s := range r.PrintedStrings() {
+		if seen[s] {
+			continue
 		}
-		scopes[opRuns[i].init] = len(o.ems)
-		for k, em := range o.ems {
-			if em.Unspec {
-				unspec++
-			} else {
-				c.Distinct(em.C)
-			}
-			if err := replayCase(c, em); err != nil {
-				return err
-			}
-			if k == len(o.ems)/2 && i%3 == 0 {
-				c.Sample(em)
-			}
+		seen[s] = true
+		var em Emitted
+		if err := json.Unmarshal([]byte(s), &em); err != nil {
+			return lib.Infra("bad case from TLC: %v: %s", err, s)
 		}
-		c.AddTraces(len(o.ems))
-		c.Logf("%s: %d cases replayed", opRuns[i].init, len(o.ems))
+		n++
+		scopes[em.C.Op]++
+		if em.Unspec {
+			unspec++
+		} else {
+			c.Distinct(em.C)
+		}
+		if err := replayCase(c, em); err != nil {
+			return err
+		}
+		if n%4000 == 1 {
+			c.Sample(em)
+		}
 	}
+	if int64(n) != r.Distinct {
+		return lib.Infra("TLC reported %d cases, received %d", r.Distinct, n)
+	}
+	c.AddTraces(n)
+	c.Logf("one-step: %d cases replayed %v", n, scopes)
 	c.Set("one_step_cases", scopes)
 	c.Set("unspecified_not_judged", unspec)
 	c.Set("exhaustive", true)
